@@ -24,7 +24,7 @@ LEVEL = "exploration"
 TECHNIQUE = "runtime history monitor against a sequential model; reference results from fresh processes; module-state snapshots as trigger for intensified checking"
 RULE = ("histories of API actions {create options object, set an option (legal / illegal value) on some object, convert "
         "program p with object o, convert p with no options, convert a program that is rejected mid-conversion, reseed "
-        "`random` with a fixed / the same / a fresh seed} over a pool of 12 programs chosen to touch every global flag "
+        "`random` with a fixed / the same / a fresh seed} over a pool of 20 programs chosen to touch every global flag and to use the same identifiers in different roles "
         "(while -> itertools, import -> importlib, for+break -> preset wrapper, captured parameters -> parameter set): "
         "exhaustive for length <= 3 over a reduced alphabet (20 actions), seeded sampling for length 4-6 over the full "
         "alphabet; workers run many histories back-to-back in one process (half of them with a random PYTHONHASHSEED), so "
@@ -51,6 +51,18 @@ POOL = [
     "print(1)\n",
     "v = 2\nif v == 1:\n    print('a')\nelif v == 2:\n    print('b')\nelse:\n    print('c')\n",
     "g = 0\ndef bump():\n    global g\n    g += 1\n    while g < 3:\n        g += 1\n        if g == 2:\n            continue\nbump()\nprint(g)\n",
+]
+# the same identifiers (x, y, f, g, K) in *different roles* across programs: any memo / cache keyed by a bare name,
+# by a line number or by a node position that survives a conversion shows up as a differing result
+POOL += [
+    "x = 1\ndef f():\n    return x\nclass K:\n    y = x\nprint(f(), K.y)\n",
+    "x = 1\ndef f():\n    x = 5\n    def g():\n        global x\n        x += 1\n        return x\n    return g(), x\nprint(f(), x)\n",
+    "def f(x):\n    def g():\n        nonlocal x\n        x += 1\n        return x\n    return g() + x\nprint(f(1))\n",
+    "class K:\n    x = 2\n    def f(self, y=x):\n        return y + self.x\nx = K().f()\nprint(x)\n",
+    "def f(*x, **y):\n    def g():\n        return len(x) + len(y)\n    return g()\nprint(f(1, 2, a=3))\n",
+    "f = lambda x, *, y=2: [x + y for x in range(x)]\ng = [f(x) for x in range(3)]\nprint(g)\n",
+    "x, (y, *g) = 1, (2, 3, 4)\nx += y\ng[0] -= 1\nprint(x, y, g)\n",
+    "for x in range(2):\n    for y in range(2):\n        if y:\n            break\n    else:\n        continue\nwhile x:\n    x -= 1\nprint(x, y)\n",
 ]
 REJECTED = "x = 1\nwhile x:\n    x -= 1\nimport os\nfor i in [1]:\n    break\ndef f(a, b, c):\n    def g():\n        return a + b + c\n    return g\ntry:\n    pass\nfinally:\n    pass\n"
 OPTION_VALUES = {"unparser": envs.UNPARSERS, "expr_wrapper": envs.WRAPPERS, "if_style": envs.IFSTYLES}
